@@ -186,9 +186,121 @@ class _AnnToAssign(ast.NodeTransformer):
         return ast.copy_location(ast.Assign(targets=[node.target], value=node.value, lineno=node.lineno), node)
 
 
+def _fn_names(fn):
+    out = {x.arg for x in fn.args.posonlyargs + fn.args.args + fn.args.kwonlyargs}
+    for n in ast.walk(fn):
+        if isinstance(n, ast.Name):
+            out.add(n.id)
+    return out
+
+
+def _desugar_comprehensions(fn):
+    """`x = [elt for t in it if c]` -> `x = []` / `for t in it: if c: x.append(elt)` (also set comprehensions, and a generator
+    expression bound to a name that is used once as the iterable of such a comprehension or of a for loop). Only when the
+    comprehension variables are not used anywhere else in the function (their scope widens)."""
+    changed = 0
+
+    def names_of(t):
+        return {x.id for x in ast.walk(t) if isinstance(x, ast.Name)}
+
+    def simple_gen(g):
+        return len(g.generators) == 1 and not g.generators[0].is_async
+
+    # 1. generator aliases used once as an iterable
+    for _ in range(3):
+        done = False
+        for blk_owner in ast.walk(fn):
+            for fld in ("body", "orelse", "finalbody"):
+                blk = getattr(blk_owner, fld, None)
+                if not isinstance(blk, list):
+                    continue
+                for i, s in enumerate(blk):
+                    if isinstance(s, ast.Assign) and len(s.targets) == 1 and isinstance(s.targets[0], ast.Name) and isinstance(s.value, ast.GeneratorExp) and simple_gen(s.value):
+                        name = s.targets[0].id
+                        uses = [x for x in ast.walk(fn) if isinstance(x, ast.Name) and x.id == name and isinstance(x.ctx, ast.Load)]
+                        stores = [x for x in ast.walk(fn) if isinstance(x, ast.Name) and x.id == name and not isinstance(x.ctx, ast.Load)]
+                        if len(uses) != 1 or len(stores) != 1:
+                            continue
+                        use = uses[0]
+                        host = None
+                        for later in blk[i + 1:]:
+                            for x in ast.walk(later):
+                                if isinstance(x, ast.comprehension) and x.iter is use:
+                                    host = x
+                                elif isinstance(x, (ast.For,)) and x.iter is use:
+                                    host = x
+                        if host is None:
+                            continue
+                        host.iter = s.value
+                        blk[i] = ast.copy_location(ast.Pass(), s)
+                        changed += 1
+                        done = True
+        if not done:
+            break
+    # 2. comprehension statements -> loops
+    for blk_owner in list(ast.walk(fn)):
+        for fld in ("body", "orelse", "finalbody"):
+            blk = getattr(blk_owner, fld, None)
+            if not isinstance(blk, list):
+                continue
+            i = 0
+            while i < len(blk):
+                s = blk[i]
+                if isinstance(s, ast.Assign) and len(s.targets) == 1 and isinstance(s.targets[0], ast.Name) and isinstance(s.value, (ast.ListComp, ast.SetComp)) and simple_gen(s.value):
+                    comp = s.value
+                    g = comp.generators[0]
+                    x = s.targets[0].id
+                    tnames = names_of(g.target)
+                    inner = None
+                    if isinstance(g.iter, ast.GeneratorExp) and simple_gen(g.iter) and isinstance(g.target, ast.Name):
+                        inner = g.iter
+                        tnames |= names_of(inner.generators[0].target)
+                    # the comprehension variables must not occur outside the comprehension
+                    outside = 0
+                    inside = {id(n) for n in ast.walk(comp)}
+                    for n in ast.walk(fn):
+                        if isinstance(n, ast.Name) and n.id in tnames and id(n) not in inside:
+                            outside += 1
+                    if outside or x in tnames:
+                        i += 1
+                        continue
+                    init = ast.List(elts=[], ctx=ast.Load()) if isinstance(comp, ast.ListComp) else ast.Call(func=ast.Name(id="set", ctx=ast.Load()), args=[], keywords=[])
+                    add = ast.Expr(value=ast.Call(func=ast.Attribute(value=ast.Name(id=x, ctx=ast.Load()), attr="append" if isinstance(comp, ast.ListComp) else "add", ctx=ast.Load()),
+                                                  args=[comp.elt], keywords=[]))
+                    body = [add]
+                    if g.ifs:
+                        test = g.ifs[0] if len(g.ifs) == 1 else ast.BoolOp(op=ast.And(), values=list(g.ifs))
+                        body = [ast.If(test=test, body=body, orelse=[])]
+                    if inner is not None:
+                        ig = inner.generators[0]
+                        body = [ast.Assign(targets=[ast.Name(id=g.target.id, ctx=ast.Store())], value=inner.elt, lineno=s.lineno)] + body
+                        if ig.ifs:
+                            test = ig.ifs[0] if len(ig.ifs) == 1 else ast.BoolOp(op=ast.And(), values=list(ig.ifs))
+                            body = [ast.If(test=test, body=body, orelse=[])]
+                        loop = ast.For(target=ig.target, iter=ig.iter, body=body, orelse=[], lineno=s.lineno)
+                    else:
+                        loop = ast.For(target=g.target, iter=g.iter, body=body, orelse=[], lineno=s.lineno)
+                    for t_ in ast.walk(loop.target):
+                        if isinstance(t_, ast.Name):
+                            t_.ctx = ast.Store()
+                    new = [ast.Assign(targets=[s.targets[0]], value=init, lineno=s.lineno), loop]
+                    for n_ in new:
+                        for sub in ast.walk(n_):
+                            if not hasattr(sub, "lineno") and isinstance(sub, (ast.stmt, ast.expr)):
+                                ast.copy_location(sub, s)
+                    blk[i:i + 1] = new
+                    changed += 1
+                    i += 2
+                    continue
+                i += 1
+    return changed
+
+
 def normalise(tree):
     """in-place; returns the number of substituted uses"""
     _AnnToAssign().visit(tree)
+    for fn in [n for n in ast.walk(tree) if isinstance(n, FuncT)]:
+        _desugar_comprehensions(fn)
     total = 0
     fns = [n for n in ast.walk(tree) if isinstance(n, FuncT)]
     for fn in fns:
